@@ -2207,15 +2207,41 @@ func (s *swamp) SaveFunction(t treasure.Treasure, guardID guard.ID) treasure.Tre
 			if t.GetContentType() != treasure.ContentTypeVoid {
 				s.addTreasureToBeacons(t)
 			}
-		} else if t.IsExpirationTimeChanged() {
-			// ExpirationTime moved (e.g. via PatchTreasures meta). Refresh
-			// only the expiration-time beacon: drop the stale entry and
-			// re-add it under the new sort key — unless the new value is 0
-			// ("never expires"), in which case leave it removed.
-			s.deleteTreasureIfBeaconInitialized(s.expirationTimeBeaconASC, t.GetKey())
-			s.deleteTreasureIfBeaconInitialized(s.expirationTimeBeaconDESC, t.GetKey())
-			if t.GetExpirationTime() != 0 {
-				s.addToExpirationTimeBeacon(t)
+		} else {
+			if t.IsExpirationTimeChanged() {
+				// ExpirationTime moved (e.g. via PatchTreasures meta). Refresh
+				// only the expiration-time beacon: drop the stale entry and
+				// re-add it under the new sort key — unless the new value is 0
+				// ("never expires"), in which case leave it removed.
+				s.deleteTreasureIfBeaconInitialized(s.expirationTimeBeaconASC, t.GetKey())
+				s.deleteTreasureIfBeaconInitialized(s.expirationTimeBeaconDESC, t.GetKey())
+				if t.GetExpirationTime() != 0 {
+					s.addToExpirationTimeBeacon(t)
+				}
+			}
+			// The same holds for the other sort keys: a treasure whose CreatedAt,
+			// ModifiedAt or content moved sits at a stale position of the already
+			// built creation-time / update-time / value index (or is missing from
+			// it, if the timestamp was zero when the index was built). Drop the
+			// stale entry and re-add it; the re-add re-sorts the index.
+			if t.IsCreatedAtChanged() {
+				s.deleteTreasureIfBeaconInitialized(s.creationTimeBeaconASC, t.GetKey())
+				s.deleteTreasureIfBeaconInitialized(s.creationTimeBeaconDESC, t.GetKey())
+				if t.GetCreatedAt() != 0 {
+					s.addToCreationTimeBeacon(t)
+				}
+			}
+			if t.IsModifiedAtChanged() {
+				s.deleteTreasureIfBeaconInitialized(s.updateTimeBeaconASC, t.GetKey())
+				s.deleteTreasureIfBeaconInitialized(s.updateTimeBeaconDESC, t.GetKey())
+				if t.GetModifiedAt() != 0 {
+					s.addToUpdateTimeBeacon(t)
+				}
+			}
+			if t.IsContentChanged() {
+				s.deleteTreasureIfBeaconInitialized(s.valueBeaconASC, t.GetKey())
+				s.deleteTreasureIfBeaconInitialized(s.valueBeaconDESC, t.GetKey())
+				s.addToValueBeacon(t)
 			}
 		}
 
